@@ -70,14 +70,49 @@ def main():
                 for t in extra.get(os.path.basename(f)[:-3], []):
                     if os.path.exists(os.path.join(wt, t)):
                         tests.add(t)
-            tcmd = "isopytest -q -x --timeout=900 " + " ".join(sorted(tests)) if tests else None
+            # two test_ae tests need a route to 8.8.8.8 and fail in the private namespace on the unmodified tree too;
+            # the subprocess-based app tests cannot reach their servers inside the namespace: run those files outside it
+            desel = ("--deselect pynetdicom/tests/test_ae.py::TestAEGoodAssociation::test_association_timeouts "
+                     "--deselect pynetdicom/tests/test_ae.py::TestAEGoodAssociation::test_connection_timeout ")
+            core = sorted(t for t in tests if "/apps/" not in t)
+            apps = sorted(t for t in tests if "/apps/" in t)
+            parts = []
+            if core:
+                parts.append("isopytest -q -x --timeout=900 " + desel + " ".join(core))
+            if apps:
+                parts.append("/venv/bin/python -m pytest -p no:cacheprovider -q -x --timeout=900 " + " ".join(apps))
+            tcmd = " && ".join(parts) if parts else None
         if notests:
             tcmd = None
         if tcmd:
+            # "the existing tests still pass" = no test fails with the patch that passes without it (some test files
+            # contain tests that fail on the unmodified tree in this sandbox; they are not in BASELINE.stable_pass)
+            import hashlib, re
+            tcmd = tcmd.replace(" -x ", " ")
+
+            def failed(out):
+                return sorted(set(re.findall(r"^(?:FAILED|ERROR) (\S+)", out, re.M)))
+
+            key = hashlib.sha1((conf["repo_head"] + tcmd).encode()).hexdigest()[:12]
+            cache = f"/var/tmp/verif-seed-baseline-{key}.json"
+            if os.path.exists(cache):
+                base = json.load(open(cache))
+            else:
+                sh("git apply -R " + os.path.join(src, "patch.diff"), cwd=wt)   # unmodified tree
+                rcb, ob = sh("timeout 3400 " + tcmd + " -rfE", cwd=wt, timeout=3500)
+                base = failed(ob)
+                json.dump(base, open(cache, "w"))
+                sh("git apply " + os.path.join(src, "patch.diff"), cwd=wt)
             t = time.time()
-            rct, ot = sh("timeout 3400 " + tcmd, cwd=wt, timeout=3500)
-            conf["tests_with_patch"] = {"cmd": tcmd, "exit": rct, "tail": ot.strip().splitlines()[-1:] , "wall_s": round(time.time() - t)}
-            ok = ok and rct == 0
+            rct, ot = sh("timeout 3400 " + tcmd + " -rfE", cwd=wt, timeout=3500)
+            new_fail = [f for f in failed(ot) if f not in base]
+            if new_fail:
+                # sleep-based tests flake under load: re-run the new failures once, alone
+                rcr, orr = sh("timeout 1800 " + tcmd.split(" pynetdicom/")[0] + " " + " ".join(new_fail) + " -rfE", cwd=wt, timeout=1900)
+                new_fail = [f for f in failed(orr)]
+            conf["tests_with_patch"] = {"cmd": tcmd, "failing_on_unmodified_tree_too": len(base), "new_failures": new_fail,
+                                        "tail": ot.strip().splitlines()[-1:], "wall_s": round(time.time() - t)}
+            ok = ok and not new_fail
         conf["confirmed"] = bool(ok)
     finally:
         sh(f"git -C /repo worktree remove --force {wt}"); shutil.rmtree(wt, ignore_errors=True)
